@@ -52,6 +52,11 @@ func (v V) text() string { return ref.SemText(v.Major, v.Minor, v.Patch, v.Pre, 
 
 const max64 = ^uint64(0)
 
+type (
+	namedS string
+	namedB []byte
+)
+
 // parseOracle: is text valid for the form ("version": no v, "tag": v required, "any"), and which value is it.
 func parseOracle(text, form string) (sem.Ver, bool) {
 	if text == "" || len(text) > sem.MaxInputLength && sem.MaxInputLength != 0 {
@@ -166,6 +171,9 @@ func judge(c Case, w *vkit.W) {
 		}
 		for _, f := range []form{
 			{"Compare/Latest", "any", func() (int, error) { return sem.Compare(ta, []byte(tb)) }, func() (sem.Ver, error) { return sem.Latest([]byte(ta), tb) }},
+			{"Compare/Latest on derived string and byte-slice types", "any", func() (int, error) { return sem.Compare(namedS(ta), namedB(tb)) }, func() (sem.Ver, error) { return sem.Latest(namedB(ta), namedS(tb)) }},
+			{"CompareTag/LatestTag on derived types", "tag", func() (int, error) { return sem.CompareTag(namedB(ta), namedS(tb)) }, func() (sem.Ver, error) { return sem.LatestTag(namedS(ta), namedS(tb)) }},
+			{"LatestVersion on derived types", "version", func() (int, error) { return sem.CompareVersion[string, string](ta, tb) }, func() (sem.Ver, error) { return sem.LatestVersion(namedS(ta), namedB(tb)) }},
 			{"CompareVersion/LatestVersion", "version", func() (int, error) { return sem.CompareVersion[string, string](ta, tb) }, func() (sem.Ver, error) { return sem.LatestVersion(ta, tb) }},
 			{"CompareTag/LatestTag", "tag", func() (int, error) { return sem.CompareTag([]byte(ta), []byte(tb)) }, func() (sem.Ver, error) { return sem.LatestTag(ta, []byte(tb)) }},
 		} {
@@ -201,7 +209,8 @@ func judge(c Case, w *vkit.W) {
 
 var cores = [][3]uint64{{0, 0, 0}, {0, 0, 1}, {0, 1, 0}, {1, 0, 0}, {1, 2, 3}, {max64, 0, 0}, {0, max64, 0}, {0, 0, max64}, {max64 - 1, max64 - 1, max64 - 1}, {max64, max64, max64}, {1 << 63, 0, 0}, {1<<63 - 1, 5, 5}}
 var mixed = []string{"a01", "a1", "a02", "a2", "a10", "a0x", "a00", "rc1", "rc10", "rc2", "rc.10", "rc.2", "0a", "-1", "--", "a-1", "a-01", "x.a01", "x.a1", "alpha", "alpha.1", "alpha.beta", "beta.2", "beta.11", "1a", "01a", "a.01a", "99999999999999999999", "100000000000000000000", "a99999999999999999999", "a100000000000000000000",
-	"18446744073709551614", "18446744073709551615", "18446744073709551616", "18446744073709551617", "rc18446744073709551615", "rc18446744073709551616", "9223372036854775807", "9223372036854775808", "4294967295", "4294967296", "x.18446744073709551615", "x.18446744073709551616"}
+	"18446744073709551614", "18446744073709551615", "18446744073709551616", "18446744073709551617", "rc18446744073709551615", "rc18446744073709551616", "9223372036854775807", "9223372036854775808", "4294967295", "4294967296", "x.18446744073709551615", "x.18446744073709551616",
+	"a0.b00", "a00.b0", "a0.a00", "a00.a0", "x0.y000", "x00.y00", "x000.y0", "a0.b0", "a00.b00", "rc0.1.x00", "rc00.1.x0", "a.b0.c00", "a.b00.c0"}
 
 func ntPair(c Case) bool {
 	return c.A.Major == c.B.Major && c.A.Minor == c.B.Minor && c.A.Patch == c.B.Patch && c.A.Pre != "" && c.B.Pre != "" && c.A.Pre != c.B.Pre
